@@ -506,6 +506,13 @@ func generate(cfg vh.Config) []*caseJ {
 			// run-time counterpart: a phase-1 (sometimes phase-2) trigger rule at a random position;
 			// early denies would hide every later effect, most of them become pass here
 			soften(r, c)
+			if r.Intn(3) == 0 {
+				if hdrs, sh := genMultiTarget(r, c); sh != "" {
+					trigger = hdrs
+					c.Shape = "ctl/" + sh
+					break
+				}
+			}
 			nt := 1
 			if r.Intn(6) == 0 {
 				nt = 2
@@ -568,4 +575,117 @@ func soften(r *rand.Rand, c *caseJ) {
 	if len(c.Dflt) > 0 && r.Intn(3) != 0 {
 		c.Dflt = nil
 	}
+}
+
+// genMultiTarget: two or three run-time target exclusions on the SAME rule and the SAME collection within one
+// transaction (regex+regex, regex+string, bare+regex, string+string with the same / another key; by id, by
+// tag, by msg mixed), carried by one trigger rule or spread over two. The rule written with ALL the negative
+// targets is the reference.
+func genMultiTarget(r *rand.Rand, c *caseJ) ([]string, string) {
+	var cand []int
+	for j, it := range c.Src {
+		if it.Marker == "" {
+			cand = append(cand, j)
+		}
+	}
+	if len(cand) == 0 {
+		return nil, ""
+	}
+	j := cand[r.Intn(len(cand))]
+	it := &c.Src[j]
+	h := &it.Links[0]
+	// the target rule inspects a whole collection (so every exclusion is visible) and fires on x
+	v := pick(r, []string{"ARGS", "ARGS", "ARGS_NAMES", "REQUEST_HEADERS"})
+	h.Targets = append([]titemJ{{Var: v, Key: keyJ{K: "none"}}}, h.Targets...)
+	for _, t := range h.Targets {
+		if t.Cnt {
+			h.Targets = h.Targets[:1]
+			break
+		}
+	}
+	h.Op = opJ{K: "contains", Lit: pick(r, []string{"x", "a", "b"})}
+	if v == "REQUEST_HEADERS" {
+		h.Op.Lit = pick(r, []string{"x", "y"})
+	}
+	it.Phase = 2
+	tag, msg := "", ""
+	for _, a := range h.Acts {
+		if a.A == "tag" && tag == "" {
+			tag = a.V
+		}
+		if a.A == "msg" {
+			msg = a.V
+		}
+	}
+	if tag == "" {
+		tag = "t3"
+		h.Acts = append([]actJ{{A: "tag", V: tag}}, h.Acts...)
+	}
+	rxPool, strPool := rxArg, argNames
+	if v == "REQUEST_HEADERS" {
+		rxPool, strPool = rxHdr, hdrNames
+	}
+	key := func(kind int) keyJ {
+		switch kind {
+		case 0:
+			return keyJ{K: "rx", V: pick(r, rxPool)}
+		case 1:
+			return keyJ{K: "str", V: pick(r, strPool)}
+		}
+		return keyJ{K: "none"}
+	}
+	n := 2 + r.Intn(2)
+	first := r.Intn(3)
+	if r.Intn(3) != 0 {
+		first = r.Intn(2) * 2 // regex or bare collection first
+	}
+	var ctls []*ctlJ
+	shape := "multi-target"
+	for i := 0; i < n; i++ {
+		kind := first
+		if i > 0 {
+			kind = r.Intn(5) / 2 // regex, regex, string, string, bare
+		}
+		k := key(kind)
+		ct := &ctlJ{Var: v, Key: &k}
+		switch sel := r.Intn(4); {
+		case sel == 0:
+			ct.Kind, ct.Val = "rmTargetTag", tag
+		case sel == 1 && msg != "":
+			ct.Kind, ct.Val = "rmTargetMsg", msg
+		case sel == 2:
+			ct.Kind, ct.Spec = "rmTargetId", &specJ{Range: true, A: it.ID, B: it.ID + r.Intn(3)}
+		default:
+			ct.Kind, ct.Spec = "rmTargetId", &specJ{A: it.ID}
+		}
+		ctls = append(ctls, ct)
+		shape += "/" + k.K
+	}
+	hdrs := []string{"x-ctl"}
+	mk := func(id int, hdr string, cs []*ctlJ) itemJ {
+		l := linkJ{Targets: []titemJ{{Var: "REQUEST_HEADERS", Key: keyJ{K: "str", V: hdr}}}, Op: opJ{K: "streq", Lit: "1"},
+			Acts: []actJ{{A: "disr", V: "pass"}}}
+		for _, ct := range cs {
+			l.Acts = append(l.Acts, actJ{A: "ctl", Ctl: ct})
+		}
+		return itemJ{ID: id, Phase: 1, Links: []linkJ{l}}
+	}
+	var trig []itemJ
+	if r.Intn(2) == 0 {
+		trig = []itemJ{mk(90, "x-ctl", ctls)}
+		shape += "(one rule)"
+	} else {
+		cut := 1 + r.Intn(len(ctls)-1)
+		trig = []itemJ{mk(90, "x-ctl", ctls[:cut]), mk(91, "x-ctl2", ctls[cut:])}
+		hdrs = append(hdrs, "x-ctl2")
+		shape += "(two rules)"
+	}
+	for _, t := range trig {
+		pos := r.Intn(2)
+		if pos > len(c.Src) {
+			pos = len(c.Src)
+		}
+		c.Src = append(c.Src[:pos], append([]itemJ{t}, c.Src[pos:]...)...)
+	}
+	return hdrs, shape
 }
